@@ -136,6 +136,16 @@ class Vec:
         return f"Vec({self.items})"
 
 
+class ViewVec(Vec):
+    """x.real / x.imag of an array: a *view* - reads follow later in-place changes of the base array."""
+    def __init__(self, base, fn, col=False):
+        self.base, self.fn, self.col = base, fn, col
+
+    @property
+    def items(self):
+        return [ViewVec(x, self.fn, x.col) if isinstance(x, Vec) else self.fn(x) for x in self.base.items]
+
+
 class GenVal:
     """A generator object: its items can be consumed once."""
     def __init__(self, items):
